@@ -9,6 +9,7 @@ CONSTANTS
   CoordsX <- CX2
   CoordsY <- CY2
   Repaired = TRUE
+  Measure = TRUE
 SPECIFICATION Spec
-INVARIANTS Incremental ClipInScreen ClipInParent AcceptedInsideOwnExtent SetCellConforms WideCellConforms FillConforms ExtentConforms
+INVARIANTS Incremental ClipInScreen ClipInParent AcceptedInsideOwnExtent SetCellConforms WideCellConforms AutoCellConforms FillConforms ExtentConforms
 CHECK_DEADLOCK FALSE
